@@ -11,6 +11,7 @@ REGISTRY = {
     'C18': ('checks.c18', 'check_c18'),
     'C01': ('checks.cv', 'check_c01'),
     'C02': ('checks.cv', 'check_c02'),
+    'C03': ('checks.cv', 'check_c03'),
     'C04': ('checks.cv', 'check_c04'),
     'C06': ('checks.callrun', 'check_c06'),
     'C07': ('checks.callrun', 'check_c07'),
